@@ -49,62 +49,80 @@ def getRands (j : Json) : R (List (Nat × Nat)) := do
       | [a, b] => pure (a, b)
       | _ => throw "rand: expected [num, den]"
 
-def jDfsOut (o : DfsOut) (nAcc md : Int) : Json :=
-  obj [("ok", true), ("edges", jEdges o.edges), ("start", jCell o.start), ("visited", jCells o.visited),
-       ("fully_connected", o.fullyConnected), ("n_accessible_cells", jInt nAcc), ("max_tree_depth", jInt md),
-       ("leftover", jNat o.leftover.length)]
+/-- uniform view of a generator run: connection bits + the metadata fields the code attaches -/
+structure GenRes where
+  edges : List Edge
+  start : Option Cell := none
+  visited : Option (List Cell) := none
+  flag : Option Bool := none          -- `fully_connected` when the key is present
+  leftover : Nat := 0
+  nAcc : Option Int := none
+  maxDepth : Option Int := none
+  dfsEdges : Option (List Edge) := none
 
-def handle (op : String) (j : Json) : R Json := do
-  match op with
-  | "C01.gen" =>
-    let gen ← getStr j "gen"
-    let rows ← getNat j "rows"; let cols ← getNat j "cols"
-    let draws ← getNatList j "draws"
-    let given : Option Cell ← match optFld j "start" with
-      | none => pure none
-      | some v => pure (some (← asCell v))
-    let fuel := 8 * rows * cols + 16
-    match gen with
-    | "dfs" | "prim" | "dfs_percolation" =>
-      let acc ← asPyNum (optFld j "accessible_cells")
-      let depth ← asPyNum (optFld j "max_tree_depth")
-      let (nAcc, md) := dfsArgs rows cols acc depth
-      let doForks := (optFld j "do_forks").map (fun v => v.getBool?.toOption.getD true) |>.getD true
-      let rs := (optFld j "randomized_stack").map (fun v => v.getBool?.toOption.getD false) |>.getD false
-      let a : Args := { nAcc := nAcc.toNat, maxDepth := md, doForks := doForks, randStack := rs }
-      if gen == "dfs" then
-        match genDfsTop rows cols a given draws fuel with
-        | some o => pure (jDfsOut o nAcc md)
-        | none => pure (obj [("ok", false)])
-      else if gen == "prim" then
-        match genPrimTop rows cols a given draws fuel with
-        | some o => pure (jDfsOut o nAcc md)
-        | none => pure (obj [("ok", false)])
-      else
-        let p ← getNatList j "p"
-        let rands ← getRands j
-        match p with
-        | [pn, pd] =>
-          match genDfsPercolationTop rows cols (pn, pd) a given draws rands fuel with
-          | some o => pure (obj [("ok", true), ("edges", jEdges o.edges), ("start", jCell o.start),
-              ("visited", jCells o.visited), ("fully_connected", o.fullyConnected),
-              ("n_accessible_cells", jInt nAcc), ("max_tree_depth", jInt md), ("dfs_edges", jEdges o.dfsEdges)])
-          | none => pure (obj [("ok", false)])
-        | _ => throw "p: expected [num, den]"
-    | "wilson" =>
-      match genWilsonTop rows cols draws (64 * (draws.length + rows * cols) + 64) with
-      | some s => pure (obj [("ok", true), ("edges", jEdges s.E), ("leftover", jNat s.rng.length), ("fully_connected", true)])
-      | none => pure (obj [("ok", false)])
-    | "percolation" =>
+def GenRes.toJson (g : GenRes) : Json :=
+  obj ([("ok", Json.bool true), ("edges", jEdges g.edges), ("leftover", jNat g.leftover)]
+    ++ (match g.start with | some c => [("start", jCell c)] | none => [])
+    ++ (match g.visited with | some v => [("visited", jCells v)] | none => [])
+    ++ (match g.flag with | some b => [("fully_connected", Json.bool b)] | none => [])
+    ++ (match g.nAcc with | some n => [("n_accessible_cells", jInt n)] | none => [])
+    ++ (match g.maxDepth with | some n => [("max_tree_depth", jInt n)] | none => [])
+    ++ (match g.dfsEdges with | some e => [("dfs_edges", jEdges e)] | none => []))
+
+/-- `get_connected_component()` from the metadata (lattice_maze.py:344-366) -/
+def GenRes.component (rows cols : Nat) (g : GenRes) : Option (List Cell) :=
+  if g.flag.getD false then some (cells rows cols) else g.visited
+
+/-- run the generator model named in the request on the recorded draws; `none` = the model run did not complete -/
+def runGen (j : Json) : R (Option GenRes) := do
+  let gen ← getStr j "gen"
+  let rows ← getNat j "rows"; let cols ← getNat j "cols"
+  let draws ← getNatList j "draws"
+  let given : Option Cell ← match optFld j "start" with
+    | none => pure none
+    | some v => pure (some (← asCell v))
+  let fuel := 8 * rows * cols + 16
+  match gen with
+  | "dfs" | "prim" | "dfs_percolation" =>
+    let acc ← asPyNum (optFld j "accessible_cells")
+    let depth ← asPyNum (optFld j "max_tree_depth")
+    let (nAcc, md) := dfsArgs rows cols acc depth
+    let doForks := (optFld j "do_forks").map (fun v => v.getBool?.toOption.getD true) |>.getD true
+    let rs := (optFld j "randomized_stack").map (fun v => v.getBool?.toOption.getD false) |>.getD false
+    let a : Args := { nAcc := nAcc.toNat, maxDepth := md, doForks := doForks, randStack := rs }
+    if gen == "dfs" || gen == "prim" then
+      let r := if gen == "dfs" then genDfsTop rows cols a given draws fuel else genPrimTop rows cols a given draws fuel
+      pure <| r.map fun o =>
+        ({ edges := o.edges, start := some o.start, visited := some o.visited, flag := some o.fullyConnected,
+           leftover := o.leftover.length, nAcc := some nAcc, maxDepth := some md } : GenRes)
+    else
       let p ← getNatList j "p"
       let rands ← getRands j
       match p with
       | [pn, pd] =>
-        match genPercolationTop rows cols (pn, pd) given draws rands fuel with
-        | some o => pure (obj [("ok", true), ("edges", jEdges o.edges), ("start", jCell o.start), ("visited", jCells o.visited)])
-        | none => pure (obj [("ok", false)])
+        pure <| (genDfsPercolationTop rows cols (pn, pd) a given draws rands fuel).map fun o =>
+          ({ edges := o.edges, start := some o.start, visited := some o.visited, flag := some o.fullyConnected,
+             nAcc := some nAcc, maxDepth := some md, dfsEdges := some o.dfsEdges } : GenRes)
       | _ => throw "p: expected [num, den]"
-    | g => throw s!"unknown generator {g}"
+  | "wilson" =>
+    pure <| (genWilsonTop rows cols draws (64 * (draws.length + rows * cols) + 64)).map fun s =>
+      ({ edges := s.E, flag := some true, leftover := s.rng.length } : GenRes)
+  | "percolation" =>
+    let p ← getNatList j "p"
+    let rands ← getRands j
+    match p with
+    | [pn, pd] =>
+      pure <| (genPercolationTop rows cols (pn, pd) given draws rands fuel).map fun o =>
+        ({ edges := o.edges, start := some o.start, visited := some o.visited } : GenRes)
+    | _ => throw "p: expected [num, den]"
+  | g => throw s!"unknown generator {g}"
+
+def handle (op : String) (j : Json) : R Json := do
+  match op with
+  | "C01.gen" =>
+    match ← runGen j with
+    | some g => pure g.toJson
+    | none => pure (obj [("ok", false)])
   | _ => throw s!"unknown op {op}"
 
 end MZ.Drv.C01
